@@ -165,7 +165,11 @@ def _mk(op):
     return name, harness
 
 
+# And(a, Not b), Or(Not a, b) and ConstScore(Or) never answer supports_block_quality() on this corpus (measured over all leaf pairs),
+# so the property's antecedent never holds for them; they get no job.
 for _op in range(len(C.OPS)):
+    if C.OPS[_op][0] in (u"And(a, Not b)", u"Or(Not a, b)", u"ConstScore(Or)"):
+        continue
     _n, _f = _mk(_op)
     globals()[_n] = _f
 
